@@ -16,6 +16,12 @@ def make_worker(tier):
         lines, meta = [], []
         for c in b.cases:
             if c.family == 'S6' and c.label.startswith('long/'):
+                # lists long enough for fragmented PER lengths: only the in-memory transformations (reverse / rotate / ...)
+                if b.mod.resolve(b.mod.types[c.name]).kind == 'SET OF':
+                    for v, d in corpus.case_values(b, c, big=True):
+                        if len(v) in (16385, 32768, 65537):
+                            lines.append('xform %s %s' % (c.name, d.hex()))
+                            meta.append((c, v, d, features.features(b.mod, b.mod.types[c.name], v[:3]) | {'long_list'}, 'xform', None))
                 continue
             t = b.mod.types[c.name]
             for v, d in corpus.case_values(b, c):
@@ -67,7 +73,7 @@ def make_worker(tier):
 
 def run(args):
     chk = common.Check('C06', 'exploration', args.tier)
-    fams = base.families_for(args.tier, args.families, quick=('S0', 'S1', 'S2', 'S5'), thorough=('S0', 'S1', 'S2', 'S3', 'S4', 'S5'))
+    fams = base.families_for(args.tier, args.families, quick=('S0', 'S1', 'S2', 'S5', 'S6'), thorough=('S0', 'S1', 'S2', 'S3', 'S4', 'S5', 'S6'))
     stats, distinct, samples = base.run_sweep(chk, args, make_worker(args.tier), fams=fams, shape_tier='quick', opts=('-fwide-types',))
     cov = dict(evaluations=stats['evaluations'], distinct_nontrivial=len(distinct),
                rule='types of families %s compiled with -fwide-types (so INTEGER_t padding exists); for every value: each single transformation of the decoded structure '
